@@ -75,7 +75,9 @@ def _case(draw):
     runs = []
     for i in range(ln):
         runs.append([draw(st.sampled_from(GROUPS)), "new" if i == 0 else draw(st.sampled_from(["new", "reuse", "reuse"])),
-                     times[i], draw(st.sampled_from(list(real.METHODS)))])
+                     times[i], draw(st.sampled_from(list(real.METHODS))),
+                     # how the run names its group: 'g1' or the one-member form 'g1#m' (still the group g1)
+                     draw(st.sampled_from(["plain", "plain", "ident"]))])
     return {"runs": runs}
 
 
@@ -140,7 +142,9 @@ def run_case(case, sb):
         cps = None
         prev = None
         instances = []   # every instance of the history stays alive and keeps resolving references
-        for k, (g, mode, ti, method) in enumerate(runs):
+        for k, run in enumerate(runs):
+            g, mode, ti, method = run[:4]
+            form = run[4] if len(run) > 4 else "plain"
             FakeDateTime._now = INSTANTS[ti]
             if mode == "new" or cps is None:
                 cps = real.new_csvpaths()
@@ -156,7 +160,9 @@ def run_case(case, sb):
                     labels.append("crosses-13h-or-midnight")
             before_dirs = run_dirs(sb)
             before_hashes = {(h["group"], h["dir"]): tree_hashes(os.path.join(sb.root, "archive", h["group"], h["dir"])) for h in history}
-            out = real.run_group(cps, g, f"f{k}", method)
+            out = real.run_group(cps, g if form == "plain" else g + "#m", f"f{k}", method)
+            if form != "plain":
+                labels.append("pathsname:group#identity")
             if out["raised"]:
                 problems.append({"run": k, "raised": out["raised"]})
                 break
